@@ -123,6 +123,11 @@ JOBS = [
     Job('Geoid.height', 'Geoid::height', ['C20', 'C13', 'C14'], timeout=600, unwind=13, sat='cadical',
         replace=[('Geoid::rawval', dict(may_throw=True)), ('Math::AngNormalize', dict(ghost=False)), 'Math::LatFix'],
         description='geoid height: raster indices in range, NaN, frame of the thread-safe mode'),
+    Job('Geoid.rawval', 'Geoid::rawval', ['C20', 'C13', 'C14'], cname='Geoid_rawval_body', timeout=600,
+        replace=['Geoid::filepos'],
+        rewrites=[(r'_file\.get\((\w+)\);', r'\1 = geoid_file_byte();'),
+                  (r'real\(_data\[([^\]]+)\]\s*\[([^;]+)\]\);', r'geoid_cache_read(self, \1, \2);')],
+        description='raster reader: longitude wrap, pole reflection, area-cache addressing (file offsets inside the raster)'),
     Job('Geoid.height.history', 'Geoid::height', ['C20'], timeout=900, unwind=13, sat='cadical', harness='history', enforce=False,
         replace=[('Geoid::rawval', dict(may_throw=True)), ('Math::AngNormalize', dict(ghost=False)), 'Math::LatFix'],
         description='lemma: the values interpolated are the raster values of the cell whatever the cache state / threading mode; cache stays consistent'),
@@ -137,6 +142,8 @@ JOBS = [
     Job('coeff.index', 'coeff::index', ['C19', 'C13', 'C14'], sat='cadical', timeout=900, description='slot of the coefficient of degree n, order m in the packed triangular storage'),
     Job('coeff.index.lemmas', None, ['C19'], lean='lemmas/CoeffIndex.lean', timeout=1800,
         description='Lean lemmas: the slot lies inside a vector of Csize(N, M) entries; the slot function is injective (over the integers; cbmc shows index == slot without overflow)'),
+    Job('coeff.Sv', 'coeff::Sv', ['C19', 'C14'], arity=4, select=r'int n', description='sine coefficient with truncation to the used degree / order'),
+    Job('coeff.Cv', 'coeff::Cv', ['C19', 'C14'], arity=4, select=r'int n', description='cosine coefficient with truncation to the used degree / order'),
     Job('coeff.Ssize', 'coeff::Ssize', ['C19', 'C13', 'C14'], inline=['coeff::Csize'], sat='cadical', timeout=600, description='number of sine coefficients'),
     # ---- geocentric (C07)
     Job('Geocentric.Rotation', 'Geocentric::Rotation', ['C07', 'C13', 'C14'], description='rotation matrix: frame and copied entries'),
